@@ -16,13 +16,15 @@ from . import smt
 HARNESSES = {}      # (prop, name) -> dict(fn, targets, finding, timeout, canary)
 
 
-def harness(prop, name, targets=(), finding=None, timeout=None, tier='quick', refute_sizes=None, expect='discharged'):
+def harness(prop, name, targets=(), finding=None, timeout=None, tier='quick', refute_sizes=None, expect='discharged', replay=None):
     """register a verification harness.  targets: functions under contract ('module:Class.method').
     finding: id of a known finding this harness is expected to fail on (its failure prints KNOWN-FINDING, never VIOLATION)
-    expect='refuted' marks a canary: a deliberately false statement that must NOT be provable (vacuity guard)."""
+    expect='refuted' marks a canary: a deliberately false statement that must NOT be provable (vacuity guard).
+    replay: callable(obligation name, counter-model dict) -> source of a stand-alone program that evaluates the property clause on the REAL code at the
+    inputs of the counter-model (exit status != 0 = the violation reproduces natively), or None when the model does not determine concrete inputs."""
     def deco(fn):
         HARNESSES[(prop, name)] = dict(fn=fn, targets=list(targets), finding=finding, timeout=timeout, tier=tier,
-                                       refute_sizes=refute_sizes, expect=expect, doc=(fn.__doc__ or '').strip())
+                                       refute_sizes=refute_sizes, expect=expect, doc=(fn.__doc__ or '').strip(), replay=replay)
         return fn
     return deco
 
